@@ -23,6 +23,6 @@ def run(run, model):
                 run.check(ok, "C11.no-drop", "%s:%s" % (ck.fi.qual, kind), "the error returned by the evaluation is tested and raised; never discarded", detail, ck.loc(node), None, first_line(node.stmt))
     run.do(c09.invariant_raise_site, model, "C11.no-drop")
     run.minimum("C11.release-on-all-exits", 5)
-    run.minimum("C11.handlers", 6, "not_check, message generation, _find_self, three self-lookups")
+    run.minimum("C11.handlers", 3, "not_check, message generation, at least one self-lookup")
     run.minimum("C11.finally-clean", 5)
     run.minimum("C11.no-drop", 5)
